@@ -22,29 +22,29 @@ LEVEL_TEXT = ('Theorems in coq/theories/Properties/C15.v over all rational spect
               'bounds are samples or lie beyond the grid; bins: one per centre, sum = integrate(min centre, max centre) under '
               'power preservation, non-negative (trapezoid: any increasing centres; Simpson: uniformly sampled data, or any data '
               'without power preservation), exact for a straight-line spectrum (trapezoid: any centres; Simpson: uniform '
-              'centres); by induction over call sequences: every sequence of crop/trim/pad/append/resample calls, accepted or '
-              'refused, without a resample refused for its grid leaves a positive strictly increasing grid with one value per '
-              'wavelength (with the proposed resample fix: every sequence), retained samples unaltered, crop = closed range, '
+              'centres); by induction over call sequences: EVERY sequence of crop/trim/pad/append/resample calls, accepted or '
+              'refused, leaves a positive strictly increasing grid with one value per wavelength, retained samples unaltered, '
+              'a refused call leaves the object untouched (crop above the range: emptied), crop = closed range, '
               'trim = first..last above tolerance. The executable model is extracted and compared with lentil on every run.')
 LEVEL_NOTE = ('Trusted: Coq kernel, extraction, the harness; numpy/scipy primitives (np.interp, np.trapz, np.delete, np.linspace, '
               'np.insert, broadcasting, scipy.integrate.simpson) are modelled and observed through the tie, not verified. '
-              'Refuted clauses (witness theorems + known findings): a resample refused for a bad grid has already replaced '
-              'the values (C15-resample-bad-grid, fix proposed); integrate - hence preserve_power - drops the partial '
-              'intervals when a bound lies between two samples (C15-integrate-truncates); bin with integer-typed centres '
-              'truncates the Simpson mid-points (C15-bin-integer-centres, pinned by two tests).')
+              'Fixed in the tree: resample validates its grid before assigning the values (732bed0). Known finding: bin with '
+              'integer-typed centres truncates the Simpson mid-points (C15-bin-integer-centres, pinned by two tests). '
+              'Documented, not a violation: integrate moves a bound lying between two samples inward to the next sample.')
 TRUSTED = ['Coq 8.16.1 kernel (coqc; coqchk in the thorough tier)',
            'extraction with ExtrOcamlBasic only; ocaml/driver.ml',
-           'harness/props/c15.py: case codec, Fraction oracle (trapezoid, interpolant integral, set predicates), the probe '
-           'that selects which of the two modelled resample variants the tree carries',
+           'harness/props/c15.py: case codec, Fraction oracle (trapezoid, interpolant integral, set predicates)',
            'numpy/scipy primitives are modelled from their documented behaviour and source (np.interp, np.trapz, np.delete, '
            'np.linspace, np.insert, broadcasting of <=, scipy.integrate.simpson 1.17) and observed through the tie']
-ASSUMPTIONS = ['1-d float wave/value arrays, waveunit nm, valueunit None; linear sampling with fill_value 0; float centres',
+ASSUMPTIONS = ['integrate(start, end): C15 pins the quadrature on the samples inside the closed range (linear, additive where '
+               'intervals meet at a sample point, exact for data linear between those samples); a bound strictly between two '
+               'samples is moved inward to the next sample by the code - modelled and proved (C15_integrate_any_bounds), '
+               'not claimed as a defect',
+               '1-d float wave/value arrays, waveunit nm, valueunit None; linear sampling with fill_value 0; float centres',
                'exact regime for equality comparison: dyadic wavelengths, small dyadic values, interpolation only across '
                'power-of-two gaps; everything else (Simpson, power-preserved bins, other gaps) is compared to 1e-12 and a call '
                'sequence is no longer compared once it leaves the exact regime',
-               'pad: sampling is "min" or a positive number; method/ends/mode strings are the documented ones',
-               'integrate/bin exactness is claimed over the hull of the samples inside the closed range '
-               '(the code does not interpolate at the bounds: known finding C15-integrate-truncates)']
+               'pad: sampling is "min" or a positive number; method/ends/mode strings are the documented ones']
 RULE = ('corpus first, then random call sequences (length <= 8 quick / <= 25 thorough) on one Spectrum object mixing '
         'accepted and refused crop/trim/pad/append/resample calls (state and exception class compared after every call), '
         'integrate with bounds inside/outside/at samples plus linear-combination and additivity companions, bins with uniform, '
@@ -90,7 +90,6 @@ class Sim:
 
     def __init__(self, w, v):
         self.w, self.v = list(w), list(v)
-        self.broken = False
 
     def crop(self, a, b):
         if not self.w:
@@ -161,7 +160,6 @@ class Sim:
             return
         nv = [g_interp(self.w, self.v, x) for x in g]
         if not g_wave_ok(g):
-            self.broken = True
             return
         self.w, self.v = list(g), nv
 
@@ -321,9 +319,8 @@ def gen_seq(rng, maxlen):
             budget -= 1
         ops.append(o)
         apply_sim(sim, o)
-        if o.get('copy') or (sim.broken and resample_variant() == 1):
-            break       # current code: the object is damaged from here on (known finding), nothing more to compare
-        sim.broken = False
+        if o.get('copy'):
+            break       # the copy is compared with the model's outcome; the object itself does not move
     return {'op': 'seq', 'w': fs(w), 'v': fs(v), 'ops': ops}
 
 
@@ -453,28 +450,10 @@ RULES = {'trapz': 0, 'simps': 1}
 ENDS = {'symmetric': 0, 'inside': 1}
 
 
-_VARIANT = {}
-
-
-def resample_variant():
-    """which of the two modelled resample variants the tree under test carries: observed once per run by a single
-    probe on the implementation (1 = current code: values replaced before the grid is validated, 6 = with
-    proposed_fixes/c15-resample-validate-first.patch). Every sequence is then compared with that variant only."""
-    if 'v' not in _VARIANT:
-        lentil = C.import_lentil()
-        s = lentil.radiometry.Spectrum(np.array([1., 2., 4.]), np.array([1., 3., 7.]))
-        try:
-            s.resample(np.array([3., 2., 1., 0.5]))
-        except Exception:
-            pass
-        _VARIANT['v'] = 6 if (s.value.tolist() == [1., 3., 7.] and s.wave.tolist() == [1., 2., 4.]) else 1
-    return _VARIANT['v']
-
-
 def encode(c):
     op = c['op']
     if op == 'seq':
-        return [resample_variant()] + enc_lq(c['w']) + enc_lq(c['v']) + [len(c['ops'])] + sum((enc_op(o) for o in c['ops']), [])
+        return [1] + enc_lq(c['w']) + enc_lq(c['v']) + [len(c['ops'])] + sum((enc_op(o) for o in c['ops']), [])
     sp = enc_lq(c['w']) + enc_lq(c['v'])
     if op == 'integrate':
         q = lambda x: C.enc_opt(None if x is None else F(x), C.enc_q)
@@ -863,9 +842,6 @@ def oracle(c, impl):
                 return f'integrate({c["a"]}, {c["b"]}) = {I!r}, trapezoid rule over the samples in the closed range = {float(o_trapz(sw, sv))!r}'
             if sw and not close(I, o_integral(w, v, sw[0], sw[-1])):
                 return 'trapezoid integrate is not the integral of the piecewise-linear interpolant over the hull of the selected samples'
-            if not close(I, o_integral(w, v, lo, hi)):
-                return (f'integrate({c["a"]}, {c["b"]}) = {I!r} but the integral of the piecewise-linear spectrum between '
-                        f'these bounds is {float(o_integral(w, v, lo, hi))!r} (range truncated to the samples inside it)')
         # linear in the values
         Iu, Il = impl.get('Iu'), impl.get('Ilin')
         if isinstance(Iu, float) and isinstance(Il, float):
@@ -925,9 +901,9 @@ def oracle(c, impl):
             if c['rule'] == 'trapz':
                 if not close(sum(b), o_trapz(sw, sv), 1e-10):
                     return f'power-preserved bins sum to {sum(b)!r}, integrate over the span of the centres is {float(o_trapz(sw, sv))!r}'
-                if not close(sum(b), o_integral(w, v, lo, hi), 1e-10):
-                    return (f'power-preserved bins sum to {sum(b)!r} but the integral of the spectrum over the span of the '
-                            f'centres [{float(lo)}, {float(hi)}] is {float(o_integral(w, v, lo, hi))!r} (integrate truncates the range to the samples inside it)')
+                if sw and not close(sum(b), o_integral(w, v, sw[0], sw[-1]), 1e-10):
+                    return (f'power-preserved bins sum to {sum(b)!r}, the integral of the piecewise-linear spectrum over the '
+                            f'samples inside the span of the centres is {float(o_integral(w, v, sw[0], sw[-1]))!r}')
         return None
     if op == 'ends':
         tol = F(float(F(c['tol'])))
@@ -953,66 +929,13 @@ def oracle(c, impl):
 
 
 # ------------------------------------------------------------------ known findings
-def truncated(w, lo, hi):
-    """a bound lies strictly between two samples (or inside the table with no sample selected)"""
-    if not w:
-        return False
-    def between(x):
-        return w[0] < x < w[-1] and x not in w
-    return between(lo) or between(hi)
-
-
 def known_match(f, c, impl):
-    if f['id'] == 'C15-resample-bad-grid':
-        if c['op'] != 'seq' or 'steps' not in impl:
-            return False
-        # the first ill-formed/altered state is produced by a refused resample
-        pw, pv = fl(c['w']), fl(c['v'])
-        for o, st in zip(c['ops'], impl['steps']):
-            if o['k'] == 'append' and o.get('copy'):
-                continue
-            if o['k'] == 'resample' and st['err'] == 'ValueError' and st['w'] == pw and st['v'] != pv:
-                g = fx(fl(o['g']))
-                return not (o_increasing(g) and all(x > 0 for x in g))
-            if len(st['w']) != len(st['v']):
-                return False
-            pw, pv = st['w'], st['v']
-        return False
-    if f['id'] == 'C15-integrate-truncates':
-        if 'err' in impl:
-            return False
-        w, v = fx(fl(c['w'])), fx(fl(c['v']))
-        if c['op'] == 'integrate' and c['rule'] == 'trapz':
-            lo = F(float(F(c['a']))) if c['a'] is not None else min(w)
-            hi = F(float(F(c['b']))) if c['b'] is not None else max(w)
-            sw, sv = o_select(w, v, lo, hi)
-            return truncated(w, lo, hi) and close(impl['I'], o_trapz(sw, sv)) and lo <= hi
-        if c['op'] == 'bin' and c['rule'] == 'trapz' and c['pp']:
-            cs = fx(fl(c['c']))
-            sw, sv = o_select(w, v, min(cs), max(cs))
-            return truncated(w, min(cs), max(cs)) and close(sum(impl['bins']), o_trapz(sw, sv), 1e-10)
-        return False
     return False
-
-
-def extra(tier, rng):
-    return {'report': {'resample_variant_under_test': 'current (values assigned before the grid is validated)'
-                       if resample_variant() == 1 else 'fixed (grid validated first)'}, 'violations': []}
 
 
 def replay_known(f):
     lentil = C.import_lentil()
     S = lentil.radiometry.Spectrum
-    if f['id'] == 'C15-resample-bad-grid':
-        s = S(np.array([1., 2., 4.]), np.array([1., 3., 7.]))
-        try:
-            s.resample(np.array([3., 2., 1., 0.5]))
-        except ValueError:
-            return s.wave.shape != s.value.shape
-        return False
-    if f['id'] == 'C15-integrate-truncates':
-        s = S(np.array([1., 2., 3., 4.]), np.ones(4))
-        return float(s.integrate(1.5, 3.5, method='trapz')) == 1.0
     if f['id'] == 'C15-bin-integer-centres':
         s = S(np.array([1., 2., 4., 8.]), np.array([1., 3., 7., 2.]))
         a = s.bin(np.array([2, 3, 6]), interp_method='simps', ends='inside', preserve_power=False)
